@@ -42,6 +42,26 @@ Definition pool_less (a b : pool) : bool :=
 
 Definition order_by_weight (nps : list pool) : list pool := isort pool_less nps.
 
+(* ------------------------------------------------------------------ Provisioner.NewScheduler: which pools get a template *)
+
+(* the root Ready condition of the NodePool as stored in the API *)
+Inductive readiness :=
+| RTrue | RFalse
+| RUnknown      (* Ready=Unknown: NodeClassReady / ValidationSucceeded not decided yet *)
+| RAbsent.      (* no Ready condition at all (status not written yet) *)
+
+Record npool := mkNP { np_pool : pool; np_ready : readiness; np_static : bool; np_deleting : bool }.
+
+Definition is_rtrue (r : readiness) : bool := match r with RTrue => true | _ => false end.
+
+(* lo.Filter in NewScheduler: !IsStatic, StatusConditions().IsTrue(Ready), DeletionTimestamp.IsZero() *)
+Definition eligible (n : npool) : bool :=
+  negb (np_static n) && is_rtrue (np_ready n) && negb (np_deleting n).
+
+(* the pools the scheduler builds templates for, in template order *)
+Definition scheduler_pools (nps : list npool) : list pool :=
+  order_by_weight (map np_pool (filter eligible nps)).
+
 (* ------------------------------------------------------------------ addToNewNodeClaim *)
 
 (* what evaluating template i for the pod yields (NewNodeClaim + CanAdd, after the limit filters) *)
